@@ -545,6 +545,7 @@ Qed.
 Lemma fill_rec_ok : forall st rs, InvW st -> InvW (fill_rec rs st) /\ st_le st (fill_rec rs st).
 Proof.
   intros st rs I. unfold fill_rec.
+  destruct (indef st || indep st); [now apply noop_ok|].
   destruct (negb (length rs =? length (ranks st))%nat) eqn:El; [now apply noop_ok|].
   apply negb_false_iff, Nat.eqb_eq in El.
   pose proof (fill_rec_F st rs El) as F.
@@ -562,6 +563,7 @@ Qed.
 Lemma fill_rec_S : forall st rs, InvS st -> InvS (fill_rec rs st).
 Proof.
   intros st rs S. unfold fill_rec.
+  destruct (indef st || indep st); [exact S|].
   destruct (negb (length rs =? length (ranks st))%nat) eqn:El; [exact S|].
   apply bump_invS. simpl. rewrite Forall_forall. intros r' Hin. apply in_map_iff in Hin.
   destruct Hin as [[r p] [<- Hin]]. simpl.
@@ -575,6 +577,7 @@ Qed.
 Lemma fill_rec_agree : forall st rs, Agree st -> Agree (fill_rec rs st).
 Proof.
   intros st rs A. unfold fill_rec.
+  destruct (indef st || indep st); [exact A|].
   destruct (negb (length rs =? length (ranks st))%nat) eqn:El; [exact A|].
   apply negb_false_iff, Nat.eqb_eq in El.
   apply bump_agree. apply ghost_agree; [exact A|now apply fill_rec_F].
@@ -1209,7 +1212,8 @@ Proof.
     destruct (0 <? length (filter is_invalid ps))%nat; [reflexivity|].
     now destruct (coll_update_modes (zmaxl (map (fun x => part_new (fst x) (snd x)) (combine (ranks st) ps)))
                    (set_ranks st (map (fun x => part_done (fst x) (snd x)) (combine (ranks st) ps)))) as [-> _].
-  - unfold fill_rec. destruct (negb (length recnos =? length (ranks st))%nat); [reflexivity|].
+  - unfold fill_rec. destruct (indef st || indep st); [reflexivity|].
+    destruct (negb (length recnos =? length (ranks st))%nat); [reflexivity|].
     match goal with |- indep (coll_update ?m ?s) = _ => now destruct (coll_update_modes m s) as [-> _] end.
   - unfold wait_all. destruct (indef st || indep st); [reflexivity|].
     destruct (negb (length sels =? length (ranks st))%nat); [reflexivity|].
